@@ -9,6 +9,7 @@ the pool memory denotes the same array as the store chain (probe address).  Assu
 region [init_esp-64, init_esp+64) and the data region [init_esi-64, init_esi+64) do not overlap - the symbolic
 machine cannot decide aliasing between different symbolic bases.
 rep: rep movsb/stosd/... with ecx = 0..4 (concrete) must equal that many single steps.
+repe/repne cmps/scas (run_repz): byte values symbolic through the real emulator, final ecx/esi/edi/zf == the architectural loop.
 """
 import random
 import sys
@@ -56,6 +57,10 @@ def jobs(tier, seed):
         for cnt in range(0, 5):
             reps.append((mn, cnt))
     js.append(('rep', tier, reps))
+    # repe / repne with the ZF termination test: byte values symbolic through the real emulator (E2)
+    for mn in ('cmpsb', 'scasb', 'cmpsd', 'scasw'):
+        for pfx in (0xF3, 0xF2):
+            js.append(('repz', tier, [(mn, pfx, cnt) for cnt in ((0, 1, 2) if tier == 'quick' else (0, 1, 2, 3, 4))]))
     return js
 
 
@@ -148,7 +153,115 @@ def _pool_compare(machine, c, st, mem, find, X, assume):
     return bad
 
 
+def run_repz(job, res):
+    """repe/repne cmps/scas with a concrete count: memory contents and al/ax SYMBOLIC integers flowing through the real
+    emulator (emul_full_expr forks at its termination test); on every path the final ecx, esi, edi and zf must equal the
+    architectural loop (executes while count != 0; after each iteration stops if ZF == 0 under repe / ZF == 1 under repne)"""
+    from vf.symex.core import SInt, Engine, PathAbort
+    from vf.checks import c11
+    import miasmx.arch.ia32_sem as SEM
+    import miasmx.tools.emul_helper as EH
+    import miasmx.expression.expression as X
+    import miasmx.tools.modint as M
+    _, tier, items = job
+    for mn, pfx, cnt in items:
+        res['programs'] = res.get('programs', 0) + 1
+        size = {'b': 1, 'w': 2, 'd': 4}[mn[-1]]
+        UT = {1: M.uint8, 2: M.uint16, 4: M.uint32}[size]
+        title = '%s %s with ecx=%d' % ('repe' if pfx == 0xF3 else 'repne', mn, cnt)
+        b = bytes([pfx]) + bytes(E.A.x86mnemo.asm(mn)[0])
+        eng = Engine(width=80, timeout_ms=20000, max_paths=3000, max_seconds=300)
+
+        def fn(eng):
+            c11.reset_singletons()
+            top = (1 << (8 * size)) - 1
+            av = [SInt.var('a%d' % k, 0, top) for k in range(cnt)]
+            bv = [SInt.var('b%d' % k, 0, top) for k in range(cnt)]
+            acc = SInt.var('acc', 0, top)
+            ri = E.A.x86mnemo.dis(b)
+            ri.offset = 0
+            machine = EH.x86_machine()
+            S = lambda d, s_: machine.eval_instr([X.ExprAff(d, s_)])
+            S(SEM.ecx, X.ExprInt(M.uint32(cnt)))
+            S(SEM.esi, X.ExprInt(M.uint32(0x1000)))
+            S(SEM.edi, X.ExprInt(M.uint32(0x2000)))
+            S(SEM.df, X.ExprInt(M.uint32(0)))
+            S(SEM.eax, X.ExprInt(M.uint32(acc)))
+            for k in range(cnt):
+                S(X.ExprMem(X.ExprInt(M.uint32(0x1000 + k * size)), 8 * size), X.ExprInt(UT(av[k])))
+                S(X.ExprMem(X.ExprInt(M.uint32(0x2000 + k * size)), 8 * size), X.ExprInt(UT(bv[k])))
+            try:
+                EH.emul_lines(machine, [ri])
+            except PathAbort:
+                raise
+            except Exception as ex:
+                return ('EXC', type(ex).__name__, str(ex)[:60], eng.model_inputs(eng.witness()))
+            # architectural loop as terms
+            W = core.Ctx.W
+            done = z3.BoolVal(False)
+            executed = z3.BitVecVal(0, W)
+            zf_t = None
+            for k in range(cnt):
+                active = z3.Not(done)
+                left = core.term_of(acc) if mn.startswith('scas') else core.term_of(av[k])
+                eq = (left == core.term_of(bv[k]))
+                zf_t = eq if zf_t is None else z3.If(active, eq, zf_t)
+                executed = z3.If(active, executed + 1, executed)
+                stop = z3.Not(eq) if pfx == 0xF3 else eq
+                done = z3.Or(done, z3.And(active, stop))
+            out = []
+            for nm, reg, want in (('ecx', SEM.ecx, z3.BitVecVal(cnt, W) - executed),
+                                  ('esi', SEM.esi, z3.BitVecVal(0x1000, W) + (executed * size if mn.startswith('cmps') else 0)),
+                                  ('edi', SEM.edi, z3.BitVecVal(0x2000, W) + executed * size)):
+                got = machine.eval_expr(machine.pool[reg], {})
+                if not isinstance(got, X.ExprInt):
+                    return ('CEX', nm, 'final %s is not a constant: %s' % (nm, got), eng.model_inputs(eng.witness()))
+                st_, m = eng.find(z3.Extract(31, 0, core.term_of(got.arg.arg)) != z3.Extract(31, 0, want))
+                if st_ == 'sat':
+                    return ('CEX', nm, 'final %s differs from the architectural loop' % nm, eng.model_inputs(m))
+                if st_ != 'unsat':
+                    return ('ABORT', 'unknown')
+            if cnt:
+                got = machine.eval_expr(machine.pool[SEM.zf], {})
+                if not isinstance(got, X.ExprInt):
+                    return ('CEX', 'zf', 'final zf is not a constant: %s' % got, eng.model_inputs(eng.witness()))
+                st_, m = eng.find((z3.Extract(0, 0, core.term_of(got.arg.arg)) == 1) != zf_t)
+                if st_ == 'sat':
+                    return ('CEX', 'zf', 'final zf differs from the architectural loop', eng.model_inputs(m))
+                if st_ != 'unsat':
+                    return ('ABORT', 'unknown')
+            return ('OK',)
+        rs = eng.explore(fn)
+        res['paths'] += eng.stats['paths']
+        res['queries'] += eng.stats['queries']
+        res['solver_s'] += eng.stats['solver_s']
+        for u in eng.unexplored:
+            res['inconclusive'].append('%s: %s' % (title, u))
+        seen = set()
+        okc = 0
+        for r in rs:
+            res['obligations'] += 1
+            if r[0] == 'OK':
+                res['proved'] += 1
+                okc += 1
+            elif r[0] in ('CEX', 'EXC'):
+                key = 'repz:%s:%s:%s' % (r[1], 'repe' if pfx == 0xF3 else 'repne', mn)
+                if key in seen:
+                    continue
+                seen.add(key)
+                res['candidates'].append({'key': key, 'desc': '%s: %s with %s' % (title, r[2], r[3]),
+                                          'data': {'kind': 'repz', 'item': [mn, pfx, cnt], 'res': r[1], 'vals': r[3], 'exc': r[0] == 'EXC'}})
+            else:
+                res['inconclusive'].append('%s: %s' % (title, r[1] if len(r) > 1 else r[0]))
+        if okc:
+            res['nontrivial'] += 1
+            if len(res['samples']) < 2:
+                res['samples'].append({'program': title, 'paths': len(rs), 'verdict': 'final ecx/esi/edi/zf equal the architectural loop on %d path(s), all memory bytes symbolic' % okc})
+
+
 def run(job, res):
+    if job[0] == 'repz':
+        return run_repz(job, res)
     from vf.checks import c11
     import miasmx.arch.ia32_sem as SEM
     import miasmx.tools.emul_helper as EH
@@ -252,6 +365,31 @@ E.A = A; E.R = R
 D = %(data)r
 it = D['item']; kind = D['kind']
 res = {'queries': 0}
+if kind == 'repz':
+    mn, pfx, cnt = it; V = D['vals']; size = {'b': 1, 'w': 2, 'd': 4}[mn[-1]]; UT = {1: M.uint8, 2: M.uint16, 4: M.uint32}[size]
+    b = bytes([pfx]) + bytes(A.x86mnemo.asm(mn)[0]); ri = A.x86mnemo.dis(b); ri.offset = 0
+    av = [V.get('a%%d' %% k, 0) for k in range(cnt)]; bv = [V.get('b%%d' %% k, 0) for k in range(cnt)]; acc = V.get('acc', 0)
+    mch = EH.x86_machine(); S = lambda d, s_: mch.eval_instr([X.ExprAff(d, s_)])
+    S(SEM.ecx, X.ExprInt(M.uint32(cnt))); S(SEM.esi, X.ExprInt(M.uint32(0x1000))); S(SEM.edi, X.ExprInt(M.uint32(0x2000))); S(SEM.df, X.ExprInt(M.uint32(0))); S(SEM.eax, X.ExprInt(M.uint32(acc)))
+    for k in range(cnt):
+        S(X.ExprMem(X.ExprInt(M.uint32(0x1000 + k * size)), 8 * size), X.ExprInt(UT(av[k]))); S(X.ExprMem(X.ExprInt(M.uint32(0x2000 + k * size)), 8 * size), X.ExprInt(UT(bv[k])))
+    try:
+        EH.emul_lines(mch, [ri])
+    except Exception as ex:
+        print('emulation raises', type(ex).__name__, ex); print('C07 replay: VIOLATED'); sys.exit(1)
+    n = 0; zf = None
+    for k in range(cnt):
+        eq = ((acc if mn.startswith('scas') else av[k]) == bv[k]); zf = int(eq); n += 1
+        if (pfx == 0xF3 and not eq) or (pfx == 0xF2 and eq): break
+    want = {'ecx': cnt - n, 'esi': 0x1000 + (n * size if mn.startswith('cmps') else 0), 'edi': 0x2000 + n * size}
+    if cnt: want['zf'] = zf
+    bad = False
+    for nm, w in want.items():
+        got = mch.eval_expr(mch.pool[getattr(SEM, nm)], {})
+        ok = isinstance(got, X.ExprInt) and int(got.arg) == w
+        print(nm, 'machine:', got, 'architectural loop: %%#x' %% w, '' if ok else '  <-- differs')
+        bad = bad or not ok
+    print('C07 replay:', 'VIOLATED' if bad else 'holds'); sys.exit(1 if bad else 0)
 if D['res'] == 'exc':
     try:
         if kind == 'prog': EH.emul_lines(EH.x86_machine(), c07p._decode(it))
